@@ -6,9 +6,15 @@
 (*   [k |-> "mark"]                       an observable statement            *)
 (*   [k |-> "if",    t, body, orelse]      t in {"T","F","U"}                 *)
 (*   [k |-> "while", t, body, orelse]                                        *)
-(*   [k |-> "for",   t, body, orelse]      t in {"empty","one","many","U"}    *)
+(*   [k |-> "for",   t, body, orelse]      t in {"empty","one","many","U",    *)
+(*                                         "lazyempty","lazyone"}: the last   *)
+(*                                         two are iterator OBJECTS (truthy    *)
+(*                                         whether or not they yield anything) *)
+(*   [k |-> "match", body, orelse]         match <unknown>: case True: body    *)
+(*                                         case _: orelse  (either may run)    *)
 (*   [k |-> "with",  body]                                                   *)
 (*   [k |-> "try",   body, handler, final] `except Exception:` / `finally:`   *)
+(*                                         the handler may be break / continue *)
 (*   [k |-> "return"], [k |-> "raise"], [k |-> "break"], [k |-> "continue"]   *)
 (*   [k |-> "assert", t]                                                     *)
 (* "U" is a condition the analysis cannot know: every evaluation may go      *)
@@ -54,8 +60,10 @@ Comp(bodies, orelses) ==
     \cup (IF "with" \in Compounds THEN {[k |-> "with", body |-> b, orelse |-> <<>>] : b \in bodies} ELSE {})
     \cup (IF "try" \in Compounds
            THEN {[k |-> "try", body |-> b, handler |-> hf[1], final |-> hf[2], orelse |-> <<>>] :
-                    b \in bodies, hf \in {<<<<Mark>>, <<>>>>, <<<<>>, <<Mark>>>>, <<<<Mark>>, <<Mark>>>>, <<<<[k |-> "return"]>>, <<>>>>}}
+                    b \in bodies, hf \in {<<<<Mark>>, <<>>>>, <<<<>>, <<Mark>>>>, <<<<Mark>>, <<Mark>>>>, <<<<[k |-> "return"]>>, <<>>>>}
+                                            \cup {<<<<[k |-> l]>>, <<>>>> : l \in Leaves \cap {"break", "continue"}}}
            ELSE {})
+    \cup (IF "match" \in Compounds THEN {[k |-> "match", body |-> b, orelse |-> o] : b \in bodies, o \in orelses} ELSE {})
 
 C1 == Comp(Blocks0, OrElse0)
 \* depth 2: a compound whose body is a depth-1 compound followed by a mark
@@ -89,7 +97,7 @@ WF(block, inloop) ==
     \A i \in 1..Len(block) :
         LET s == block[i] IN
         CASE s.k \in {"break", "continue"} -> inloop
-          [] s.k = "if" -> WF(s.body, inloop) /\ WF(s.orelse, inloop)
+          [] s.k \in {"if", "match"} -> WF(s.body, inloop) /\ WF(s.orelse, inloop)
           [] s.k = "with" -> WF(s.body, inloop)
           [] s.k = "try" -> WF(s.body, inloop) /\ WF(s.handler, inloop) /\ WF(s.final, inloop)
           [] s.k \in {"while", "for"} -> WF(s.body, TRUE) /\ WF(s.orelse, inloop)
@@ -106,8 +114,10 @@ Pop == SubSeq(K, 1, Len(K) - 1)
 CanT(t) == t \in {"T", "U"}
 CanF(t) == t \in {"F", "U"}
 \* may a for loop start iteration number n (1-based)
-CanIter(t, n) == CASE t = "empty" -> FALSE [] t = "one" -> n = 1 [] t = "many" -> n <= MaxIter [] t = "U" -> n <= MaxIter
-CanStop(t, n) == CASE t = "empty" -> TRUE [] t = "one" -> n = 2 [] t = "many" -> n = MaxIter + 1 [] t = "U" -> TRUE
+CanIter(t, n) == CASE t \in {"empty", "lazyempty"} -> FALSE [] t \in {"one", "lazyone"} -> n = 1
+                   [] t = "many" -> n <= MaxIter [] t = "U" -> n <= MaxIter
+CanStop(t, n) == CASE t \in {"empty", "lazyempty"} -> TRUE [] t \in {"one", "lazyone"} -> n = 2
+                   [] t = "many" -> n = MaxIter + 1 [] t = "U" -> TRUE
 
 (* An abrupt completion (return, exception, break, continue) leaves the frames of the stack S one by one   *)
 (* until a frame intercepts it: a try statement whose body raised runs its handler; a try statement with a   *)
@@ -175,6 +185,9 @@ Exec ==
             [] s.k = "if" ->
                  \/ CanT(s.t) /\ K' = rest \o <<SeqF(s.body, me \o <<1>>, 1)>> /\ status' = "run"
                  \/ CanF(s.t) /\ K' = rest \o <<SeqF(s.orelse, me \o <<2>>, 1)>> /\ status' = "run"
+            [] s.k = "match" ->
+                 \/ K' = rest \o <<SeqF(s.body, me \o <<1>>, 1)>> /\ status' = "run"
+                 \/ K' = rest \o <<SeqF(s.orelse, me \o <<2>>, 1)>> /\ status' = "run"
             [] s.k = "with" -> K' = rest \o <<SeqF(s.body, me \o <<1>>, 1)>> /\ status' = "run"
             [] s.k = "try" -> K' = rest \o <<TryF(s, me, "body"), SeqF(s.body, me \o <<1>>, 1)>> /\ status' = "run"
             [] s.k \in {"while", "for"} -> K' = rest \o <<LoopF(s, me, 0)>> /\ status' = "run"
